@@ -278,7 +278,7 @@ func TestC20Random(t *testing.T) {
 	maxU := kit.EnvInt("C20_MAXU", 12)
 	kit.Run(t, kit.Spec[c20Case]{
 		Prop: "C20",
-		Rule: "random scripts over {F,P,Q,A,T,R,U} of length 0..300 (bursts of >100 reported errors with a consumer that starts late), ended by a terminal from {EOF,ErrUnexpectedEOF,ErrClosedPipe,EBADF,'use of closed file'} or cancelled inside a drawn read call; scripted zero-copy reader, recording processor; oracle = reference state machine (frames before the end processed once in order, U and P errors once each in order, transients invisible, exactly end+1 reads, channel closes). non-trivial: length>=3; distinct by case",
+		Rule: "random scripts over {F,P,Q,A,T,R,U} of length 0..300 (bursts of >100 reported errors with a consumer that starts late or pauses; one case in 40 a run of 31..130 unknown read failures between frames), ended by a terminal from {EOF,ErrUnexpectedEOF,ErrClosedPipe,EBADF,'use of closed file'} or cancelled inside a drawn read call; scripted zero-copy reader, recording processor; oracle = reference state machine (frames before the end processed once in order, U and P errors once each in order, transients invisible, exactly end+1 reads, channel closes). non-trivial: length>=3; distinct by case",
 		Gen: func(t *rapid.T) c20Case {
 			var n int
 			switch rapid.IntRange(0, 3).Draw(t, "size") {
@@ -288,6 +288,20 @@ func TestC20Random(t *testing.T) {
 				n = rapid.IntRange(8, 60).Draw(t, "n")
 			default:
 				n = rapid.IntRange(60, 300).Draw(t, "n")
+			}
+			if rapid.IntRange(0, 39).Draw(t, "unknown-burst") == 0 {
+				// a long run of unknown failures (an interface flapping) with frames before and after it: every failure
+				// reported, reading goes on (each costs the receiver's 5 ms pause, hence rare)
+				k := rapid.SampledFrom([]int{31, 32, 33, 40, 64, 101, 130}).Draw(t, "burst")
+				b := []byte("F")
+				for i := 0; i < k; i++ {
+					b = append(b, 'U')
+					if rapid.IntRange(0, 3).Draw(t, "with-transient") == 0 {
+						b = append(b, "ATR"[kit.Uniform(t, "transient", 3)])
+					}
+				}
+				b = append(b, 'F', 'P', 'F', c20Terminals[kit.Uniform(t, "term", 5)])
+				return c20Case{Script: string(b), Cancel: -1}
 			}
 			heavyP := rapid.Bool().Draw(t, "many-processing-errors")
 			b := make([]byte, 0, n+1)
